@@ -261,10 +261,9 @@ def replay_trace(trace_lines, work, tag, profile="seq"):
 def minimize(trace_lines, work, profile="seq"):
     """delta-debug the event lines of one case (header kept), re-running both sides"""
     header, events = trace_lines[0], [l for l in trace_lines[1:] if l[:1] not in "OG"]
-    rt = replay_trace
-    def replay_trace(lines, work, tag):
-        return rt(lines, work, tag, profile)
-    if replay_trace([header] + events, work, "min") is None:
+    def rt(lines, work, tag):
+        return replay_trace(lines, work, tag, profile)
+    if rt([header] + events, work, "min") is None:
         return trace_lines  # not reproducible without oracle lines (random evictions): keep as is
     n = 2
     budget = 200
@@ -274,7 +273,7 @@ def minimize(trace_lines, work, profile="seq"):
         for i in range(0, len(events), chunk):
             cand = events[:i] + events[i + chunk:]
             budget -= 1
-            if cand and replay_trace([header] + cand, work, "min") is not None:
+            if cand and rt([header] + cand, work, "min") is not None:
                 events = cand
                 n = max(n - 1, 2)
                 reduced = True
@@ -384,6 +383,21 @@ PROPS = {
             "relevant": "RM"},
     "C08": {"seq": [("flush", 1024, None, 80, 50), ("ttl", 1024, None, 40, 50), ("cas", 1024, None, 30, 40),
                     ("wide", 1024, None, 30, 40)], "relevant": "RM"},
+    "C09": {"seq": [("cuts", 1024, None, 60, 30), ("malformed", 1024, None, 60, 30), ("malformed", 100, None, 40, 30),
+                    ("cuts", 64, None, 30, 30)],
+            "conn": [("cuts", 1024, None, 30, 25), ("malformed", 100, None, 30, 25), ("malformed", 1024, None, 20, 25)],
+            "relevant": "RSM"},
+    "C10": {"seq": [("malformed", 1024, None, 80, 30), ("malformed", 64, None, 40, 30), ("counter", 1024, None, 30, 40),
+                    ("cas", 1024, None, 30, 40)],
+            "conn": [("malformed", 100, None, 30, 25)], "relevant": "RSM"},
+    "C12": {"seq": [("quiet", 1024, None, 60, 40), ("mix", 1024, None, 40, 40), ("malformed", 1024, None, 30, 30)],
+            "conn": [("quiet", 1024, None, 30, 25), ("mix", 1024, None, 30, 25)], "relevant": "RS"},
+    "C13": {"seq": [("malformed", 100, None, 60, 30), ("malformed", 64, None, 40, 30), ("cuts", 100, None, 30, 30)],
+            "conn": [("malformed", 100, None, 40, 25), ("malformed", 1024, None, 20, 25), ("cuts", 64, None, 20, 25)],
+            "relevant": "RSM"},
+    "C18": {"seq": [("cuts", 1024, None, 60, 30), ("malformed", 1024, None, 40, 30)],
+            "conn": [("cuts", 1024, None, 30, 25), ("malformed", 1024, None, 30, 25), ("mix", 1024, None, 20, 25)],
+            "relevant": "RSM"},
     "C19": {"seq": [("quiet", 1024, None, 80, 50), ("mix", 1024, None, 30, 40), ("counter", 1024, None, 30, 40)],
             "relevant": "RM"},
 }
@@ -451,6 +465,10 @@ def run_seq_suites(prop, cfg, tier, seed, work, report):
         if ml is not None:
             cmd += ["--mem-limit", str(ml)]
         rc, out = sh(cmd, timeout=1800)
+        if rc != 0:
+            # a loaded machine can make the socket profile miss a deadline: one retry before it counts
+            rc, out2 = sh(cmd, timeout=1800)
+            out += out2
         if rc != 0:
             report["errors"].append("harness failed on suite %s: %s" % (tag, out[-500:]))
             continue
